@@ -23,6 +23,7 @@ RULE = (
     "distinct = distinct (operation kinds, position classes); non-trivial = arrays and clusters interleaved, or an out-of-area / border cluster followed by a read"
 )
 ASSUMPTIONS = [
+    "a cluster table whose columns come in another order (sorted / reversed) holds the same clusters: add_charge_dataframe accepts any order of the column set",
     "charge amounts are small multiples of 0.5 so that sums are exact in any order",
     "removal of clusters removes their charge from the reported array; once clusters exist, array additions live in the cluster table (as the container converts them) and can be removed like any other cluster",
     "only non-negative charge is added (the statement is about non-negative charge)",
